@@ -563,6 +563,72 @@ def runRe (re : Phase → Bool) (n : Nat) (S : Stacking) (L : Limits) : Conn →
 /-- NOT the code: `handleMITM` returning the raw peek error (a time-out is not closeable) instead of `errClose` -/
 def reMitmPeek (p : Phase) : Bool := p == .body || p == .mitmPeek
 
+/-! ## What the connections of a listener share: nothing but the accept loop
+
+Every connection has its goroutine; `maybeHandshakeTLS` and the handshake of `handleMITM` run inside it, under
+a context of their own, the moment the connection reaches them (listener: the start of the goroutine / the end
+of its PROXY header; MITM: the first tunnel byte).  Nothing is taken from a shared, finite stock on the way:
+no slot, no worker, no token.  `hsBegins none` says that for the server-side handshakes; `hsBegins (some n)` is
+NOT the code: handshakes (listener and MITM alike) let in through `n` slots — `p.handshakes <- struct{}{}` in
+front of `HandshakeContext`, given back when it returns — so that the time-out of a handshake counts from the
+instant it got its slot and a slot is held for as long as the PEER takes. -/
+
+/-- a connection that reaches a server-side handshake: the instant, and what its peer sends -/
+structure HsReq where
+  reach  : Nat
+  script : List (Nat × Ev)
+deriving DecidableEq, Repr
+
+/-- the instant at which a handshake that began at `b` is over — the peer completed it, or the proxy gave up
+    at `b + HandshakeTimeout`; `none` = never (no limit and the peer never completes) -/
+def hsEnd (L : Limits) (b : Nat) : List (Nat × Ev) → Option Nat
+  | [] => dl L.tls b
+  | (t, e) :: rest =>
+    match dl L.tls b with
+    | some d => if d ≤ max t b then some d else if e == .complete then some (max t b) else hsEnd L b rest
+    | none => if e == .complete then some (max t b) else hsEnd L b rest
+
+/-- a slot whose handshake ends at `e` (`none` = never) is still taken at `t` -/
+def stillHeld (t : Nat) : Option Nat → Bool
+  | some e => decide (t < e)
+  | none => true
+
+def heldAt (held : List (Option Nat)) (t : Nat) : List (Option Nat) := held.filter (stillHeld t)
+
+/-- the earliest instant at which one of the slots is given back (`none` = none ever is) -/
+def firstFree : List (Option Nat) → Option Nat
+  | [] => none
+  | none :: hs => firstFree hs
+  | some e :: hs =>
+    match firstFree hs with
+    | some f => some (min e f)
+    | none => some e
+
+/-- the instant at which the handshake of a connection that reaches it at `t` begins (its time-out counts from
+    there).  `pool = none`: the code.  `pool = some n`: `n` slots, waiters in queue order (`now` = the instant
+    the waiter before this one got its slot); `none` = it never begins. -/
+def hsBegin (pool : Option Nat) (now : Nat) (held : List (Option Nat)) (t : Nat) : Option Nat :=
+  match pool with
+  | none => some t
+  | some n =>
+    if (heldAt held (max now t)).length < n then some (max now t) else firstFree (heldAt held (max now t))
+
+/-- the begin of every handshake of a population (in the order in which the connections reach it);
+    `held` = the ends of the handshakes in progress -/
+def hsBegins (pool : Option Nat) (L : Limits) : Nat → List (Option Nat) → List HsReq → List (Option Nat)
+  | _, _, [] => []
+  | now, held, r :: rs =>
+    match hsBegin pool now held r.reach with
+    | some b => some b :: hsBegins pool L b (hsEnd L b r.script :: heldAt held b) rs
+    | none => none :: hsBegins pool L now held rs
+
+/-- a TLS listener without PROXY protocol whose handshakes go through `pool`: the fate of every connection
+    (`none` = its handshake never begins).  With `pool = none` this is `outcomeOf`. -/
+def outcomesPool (pool : Option Nat) (S : Stacking) (L : Limits) (free : Nat) (ps : List Peer) :
+    List (Option Outcome) :=
+  ((hsBegins pool L 0 [] (((starts S L free ps).zip ps).map fun (s, p) => ⟨s, p.script⟩)).zip ps).map
+    fun (b, p) => b.map fun b => run S L (enter L .tlsHandshake b) p.script
+
 /-! ## Decidable forms of the property's clauses on what the implementation did -/
 
 /-- closed `elapsed` ms after the phase began, limit `limit`: not earlier than the limit (up to clock
